@@ -32,6 +32,7 @@
 -/
 import Lumina.Proofs.Crash
 import Lumina.Proofs.CrashRedb
+import Lumina.Proofs.RedbCommit
 
 namespace Lumina.Props.C22
 open Lumina.Model.Crash Lumina.Proofs.Crash
@@ -411,5 +412,173 @@ example : CrashImage (idealBackend Db) (fresh 7) (exOps.map (txOf exV))
     (applyOp (fresh 7) (txOf exV (.insert [hd 0 1 101, hd 101 2 102]))) _ rfl (by rfl) (Or.inr rfl)
 
 end Redb
+
+/-! ## S5 — `AtomicDurableCommit` PROVED for a model of redb 2.6.3's commit protocol
+
+  BEGIN SECTION S5 (group S5; model `Model/RedbCommit.lean`, lemmas `Proofs/RedbCommit.lean`).
+
+  The hypothesis `AtomicDurableCommit B` of every theorem above is here a THEOREM for the backend
+  `redbBackend` built from a transcription of redb's commit path and recovery:
+  two commit slots + god byte (primary bit, two-phase flag), `commit_inner` (fill the secondary
+  slot / write header / [sync if two-phase] / swap primary / write header / sync), recovery on
+  open (`pick_primary_for_repair`, `verify_primary_checksums`, fall back to the other slot),
+  over a storage model = the one of the fault-injecting harness: everything written before the
+  last completed `sync_data` is durable; of the writes after it ANY SUBSET survives; a write of
+  one REGION (god byte / one 128-byte slot / one page) is atomic — the header write is even
+  allowed to tear between its three regions.
+
+  What remains ASSUMED (explicit hypotheses / stated in `design_notes/C22.md`, section S5):
+    (i)   the protocol model transcribes redb faithfully (functions and lines listed at the top
+          of `Model/RedbCommit.lean`); the B-tree + allocator layer is the parameter `plan` with
+          hypothesis `PlanOK`: a transaction writes only pages NOT reachable from the committed
+          roots, and once all its pages are written its new roots verify and hold the new state;
+    (ii)  the storage / crash model (region-atomic writes, no bit rot, sync is a barrier);
+    (iii) `Function.Injective H.page`: the page checksum (xxh3-128) is collision-free.
+-/
+
+section RedbProtocol
+open Lumina.Model.RedbCommit Lumina.Proofs.RedbCommit
+
+/-- **Crash atomicity of redb's one-phase durable commit** (the commit lumina uses), on the
+    raw medium.  `d`: medium of an open, idle database (`Clean`); `pl`: the transaction.  For
+    EVERY crash point and EVERY surviving subset of the unsynced writes (`CrashImg`), recovery
+    SUCCEEDS and shows either exactly the content committed before or exactly the new state `w`
+    — never a mixture.  And once `commit()` has returned (`commitDisk`), the medium is clean
+    again and shows `w`. -/
+theorem redb_protocol_commit_atomic {α C σ : Type} [DecidableEq C] (H : Sums α C)
+    (hinj : Function.Injective H.page) (fuel : Nat) (dec : List α → σ) (d : Disk α C) (w : σ)
+    (pl : Plan α C) (hc : Clean H fuel d) (hp : PlanOK H fuel dec d w pl) :
+    (∀ x, CrashImg d (commitEpochs H d pl false) x →
+      ∃ c, recover H fuel x = some c ∧ (some c = verify H fuel d d.primary ∨ dec c = w)) ∧
+    Clean H fuel (commitDisk H d pl false) ∧
+    ∃ c, recover H fuel (commitDisk H d pl false) = some c ∧ dec c = w := by
+  obtain ⟨c0, hc0⟩ := hc.verified
+  obtain ⟨hcl, c, hv, hd⟩ := commit_returned H fuel dec d w pl false hp
+  refine ⟨fun x hx => ?_, hcl, c, ?_, hd⟩
+  · rcases commit1_crash_atomic H hinj fuel dec d w pl hc hp x hx with h | ⟨c', h1, h2⟩
+    · exact ⟨c0, h.trans hc0, Or.inl hc0.symm⟩
+    · exact ⟨c', h1, Or.inr h2⟩
+  · rw [recover_clean H hinj fuel _ hcl]; exact hv
+
+/-- the same for the TWO-PHASE commit (redb's own repair-on-open commit uses it) -/
+theorem redb_protocol_commit2_atomic {α C σ : Type} [DecidableEq C] (H : Sums α C)
+    (hinj : Function.Injective H.page) (fuel : Nat) (dec : List α → σ) (d : Disk α C) (w : σ)
+    (pl : Plan α C) (hc : Clean H fuel d) (hp : PlanOK H fuel dec d w pl) :
+    (∀ x, CrashImg d (commitEpochs H d pl true) x →
+      ∃ c, recover H fuel x = some c ∧ (some c = verify H fuel d d.primary ∨ dec c = w)) ∧
+    Clean H fuel (commitDisk H d pl true) ∧
+    ∃ c, recover H fuel (commitDisk H d pl true) = some c ∧ dec c = w := by
+  obtain ⟨c0, hc0⟩ := hc.verified
+  obtain ⟨hcl, c, hv, hd⟩ := commit_returned H fuel dec d w pl true hp
+  refine ⟨fun x hx => ?_, hcl, c, ?_, hd⟩
+  · rcases commit2_crash_atomic H hinj fuel dec d w pl hc hp x hx with h | ⟨c', h1, h2⟩
+    · exact ⟨c0, h.trans hc0, Or.inl hc0.symm⟩
+    · exact ⟨c', h1, Or.inr h2⟩
+  · rw [recover_clean H hinj fuel _ hcl]; exact hv
+
+/-- a transaction that has not reached `commit` is invisible: whatever dirty pages reached the
+    medium (write-buffer eviction), recovery shows the committed content, and if the process
+    lives on (abort), the database is still clean with the same content -/
+theorem redb_protocol_uncommitted_invisible {α C : Type} [DecidableEq C] (H : Sums α C)
+    (hinj : Function.Injective H.page) (fuel : Nat) (d : Disk α C) (hc : Clean H fuel d)
+    (ws : List (Write α C)) (hws : ∀ w ∈ ws, FreePageWrite fuel d w) :
+    recover H fuel (applyAll d ws) = verify H fuel d d.primary ∧
+    Clean H fuel (applyAll d ws) ∧
+    verify H fuel (applyAll d ws) (applyAll d ws).primary = verify H fuel d d.primary :=
+  ⟨recover_free_writes H hinj fuel d hc ws hws, clean_free_writes H fuel d hc ws hws⟩
+
+/-- redb's repair-on-open leaves a clean medium showing what recovery found -/
+theorem redb_protocol_repair {α C : Type} [DecidableEq C] (H : Sums α C) (fuel : Nat)
+    (d : Disk α C) (c : List α) (h : recover H fuel d = some c) :
+    Clean H fuel (repair H fuel d) ∧
+    verify H fuel (repair H fuel d) (repair H fuel d).primary = some c :=
+  repair_clean H fuel d c h
+
+/-- **`AtomicDurableCommit` holds for the redb protocol model.**  `redbBackend H fuel dec plan _`
+    is the `Backend` whose images are media (+ "crashed since open" flag), whose `commit` is
+    [repair-on-open if crashed;] the one-phase commit protocol, whose crash relations are the
+    harness's fault model, and whose `view` is redb's recovery. -/
+theorem redb_protocol_atomic {α C σ : Type} [DecidableEq C] (H : Sums α C)
+    (hinj : Function.Injective H.page) (fuel : Nat) (dec : List α → σ)
+    (plan : Disk α C → σ → Plan α C)
+    (hplan : ∀ d, Clean H fuel d → ∀ w, PlanOK H fuel dec d w (plan d w)) :
+    AtomicDurableCommit (redbBackend H fuel dec plan hplan) :=
+  redbBackend_atomic H hinj fuel dec plan hplan
+
+/-- **`crash_prefix_partial` on the protocol model**: the remaining assumptions are (i)–(iii)
+    of the section header only.  Still `_partial`: the model is a transcription, the B-tree /
+    allocator layer is the hypothesis `hplan`, crashes during repair-on-open are not modelled. -/
+theorem crash_prefix_redb_protocol_partial {α C σ ε : Type} [DecidableEq C] (H : Sums α C)
+    (hinj : Function.Injective H.page) (fuel : Nat) (dec : List α → σ)
+    (plan : Disk α C → σ → Plan α C)
+    (hplan : ∀ d, Clean H fuel d → ∀ w, PlanOK H fuel dec d w (plan d w))
+    (d₀ : RD H fuel) (ops : List (Op σ ε)) (d' : RD H fuel) (n : Nat)
+    (hc : CrashImage (redbBackend H fuel dec plan hplan) d₀ ops d' n) :
+    ∃ k, n ≤ k ∧ k ≤ n + 1 ∧ k ≤ ops.length ∧
+      (redbBackend H fuel dec plan hplan).view d' =
+        runAbs ((redbBackend H fuel dec plan hplan).view d₀) (ops.take k) :=
+  crash_prefix_partial _ (redb_protocol_atomic H hinj fuel dec plan hplan) d₀ ops d' n hc
+
+/-- … and any number of crash / repair-on-open / continue cycles -/
+theorem crash_multi_redb_protocol_partial {α C σ ε : Type} [DecidableEq C] (H : Sums α C)
+    (hinj : Function.Injective H.page) (fuel : Nat) (dec : List α → σ)
+    (plan : Disk α C → σ → Plan α C)
+    (hplan : ∀ d, Clean H fuel d → ∀ w, PlanOK H fuel dec d w (plan d w))
+    (d d' : RD H fuel) (incs : List (List (Op σ ε) × Nat))
+    (hl : Lives (redbBackend H fuel dec plan hplan) d incs d') :
+    ∃ eff, SurvivingPrefixes incs eff ∧
+      (redbBackend H fuel dec plan hplan).view d' =
+        runAbs ((redbBackend H fuel dec plan hplan).view d) eff :=
+  crash_multi_partial _ (redb_protocol_atomic H hinj fuel dec plan hplan) d d' incs hl
+
+/-! ### non-vacuity: the hypotheses (i)–(iii) are satisfiable, concrete crash images -/
+
+/-- a collision-free checksum, a planner meeting `PlanOK` on every clean medium, a clean medium -/
+example : Function.Injective Example.sums.page ∧
+    (∀ d, Clean Example.sums 1 d → ∀ w, PlanOK Example.sums 1 List.flatten d w (Example.plan 1 d w)) ∧
+    Clean Example.sums 1 Example.emptyDisk :=
+  ⟨Example.sums_injective, fun d _ w => Example.plan_ok 0 d w, Example.emptyDisk_clean 1⟩
+
+/-- the commit of state `[1,2,3]` on a fresh database: the header reached the medium, the data
+    page did not ("hdr" mask of the harness) -/
+example :
+    let d := Example.emptyDisk
+    let pl := Example.plan 1 d [1, 2, 3]
+    let x := applyAll d (headerWrites (stage2 false (stage1 Example.sums d pl)))
+    CrashImg d (commitEpochs Example.sums d pl false) x ∧
+    recover Example.sums 1 x = some [] := by
+  intro d pl x
+  constructor
+  · left
+    refine ⟨(pl.pageWrites ++ headerWrites (stage1 Example.sums d pl) ++
+      headerWrites (stage2 false (stage1 Example.sums d pl))).length, _, ?_, rfl⟩
+    rw [List.take_length]
+    exact List.sublist_append_right _ _
+  · simp [x, d, pl, applyAll_headerWrites, recover, recoverSlot, pickPrimary, verify, stage1, stage2,
+      Example.emptyDisk, Example.plan, mkSlot, Slot.corrupted, readRoots, readKids, readTree, Example.sums,
+      liveRoots, liveKids, Example.fresh]
+
+/-- … and the same commit with the page AND the new header on the medium (crash just before the
+    `sync_data` returns): the new state is shown -/
+example :
+    let d := Example.emptyDisk
+    let pl := Example.plan 1 d [1, 2, 3]
+    let x := applyAll d (pl.pageWrites ++ headerWrites (stage2 false (stage1 Example.sums d pl)))
+    CrashImg d (commitEpochs Example.sums d pl false) x ∧
+    recover Example.sums 1 x = some [[1, 2, 3]] := by
+  intro d pl x
+  constructor
+  · left
+    refine ⟨(pl.pageWrites ++ headerWrites (stage1 Example.sums d pl) ++
+      headerWrites (stage2 false (stage1 Example.sums d pl))).length, _, ?_, rfl⟩
+    rw [List.take_length, List.append_assoc]
+    exact List.Sublist.append_left (List.sublist_append_right _ _) _
+  · simp only [x, applyAll_append, applyAll_headerWrites]
+    simp [d, pl, recover, recoverSlot, pickPrimary, verify, stage1, stage2,
+      Example.emptyDisk, Example.plan, mkSlot, Slot.corrupted, readRoots, readKids, readTree, Example.sums,
+      liveRoots, liveKids, Example.fresh, Plan.pageWrites, applyAll, Write.apply]
+
+end RedbProtocol
+/-! END SECTION S5 -/
 
 end Lumina.Props.C22
